@@ -82,7 +82,7 @@ def functions():
 
     def blocked(m, items, p):
         got = set(fa.find_blocked_reactions(m, reaction_list=items, processes=p))
-        return {i: (1.0 if i in got else 0.0,) for i in items}
+        return {getattr(i, "id", i): (1.0 if getattr(i, "id", i) in got else 0.0,) for i in items}
 
     def srd(m, items, p):
         df = fa.single_reaction_deletion(m, items, processes=p)
@@ -99,10 +99,12 @@ def functions():
         # two different lists: the second is the reversed tail of the first plus its head
         # (the *sets* do not depend on the item order the schedule uses, only the orders do)
         l1 = list(items)
-        l2 = [x for x in reversed(items) if x != min(items)]
+        _id = lambda x: getattr(x, "id", x)
+        first = min(_id(x) for x in items)
+        l2 = [x for x in reversed(items) if _id(x) != first]
         df = fa.double_reaction_deletion(m, l1, l2, processes=p)
         out = {",".join(sorted(ids)): (float(g), 1.0 if s == "optimal" else 0.0) for ids, g, s in zip(df.ids, df.growth, df.status)}
-        for k in _pairs_expected(l1, l2) - set(out):
+        for k in _pairs_expected([_id(x) for x in l1], [_id(x) for x in l2]) - set(out):
             out[k] = (float("nan"), -1.0)  # every requested unordered pair must have its row (judged in run_function)
         return out
 
@@ -273,7 +275,15 @@ def run_function(acc, rng, model, fname, F, ident0, tmpdir, rec_sig):
             try:
                 with warnings.catch_warnings():
                     warnings.simplefilter("ignore")
-                    res = fn(model, perm, p)
+                    arg = perm
+                    if perm is not None and itemkind in ("reactions", "reactions-few", "genes") and rng.random() < 0.4:
+                        # the documented calling form with objects: what reaches a worker through the task queue is a
+                        # pickled copy of the object, the result must be the one for the worker's own model all the same
+                        lst = model.genes if itemkind == "genes" else model.reactions
+                        arg = [lst.get_by_id(i) for i in perm]
+                        ident["items_as"] = "objects"
+                        acc.count("schedules_with_items_given_as_objects")
+                    res = fn(model, arg, p)
             except Exception as e:
                 acc.ev()
                 acc.violation(f"C14/{fname}/raised-under-schedule/{type(e).__name__}", f"{fname} with {p} processes raised {type(e).__name__}: {str(e)[:160]} (the serial run succeeded)", ident)
